@@ -316,8 +316,12 @@ def harness(spec: Any, cap: Any, fkey: str):
     return h
 
 
-def concrete_compare(spec: Any, fkey: str) -> Tuple[bool, str]:
-    """Replay on the real pipeline with the random source pinned: rewritten module vs the reference, bit for bit."""
+def concrete_compare(spec: Any, fkey: str, mode: str = "reference") -> Tuple[bool, str]:
+    """On the real pipeline with the random source pinned.
+    mode 'reference': rewritten module vs my reference interpreter (confirmation of a symbolic counterexample);
+    mode 'raises':    does the real rewritten module raise in forward / backward (confirmation of an exception seen symbolically);
+    mode 'lossless':  the property's floating-point clause, which a real-number model cannot see: with the lossless format the rewritten
+                      module reproduces the ORIGINAL module's outputs and all gradients bit for bit."""
     p = build(spec)
     inputs = p.example_inputs()
     cap = capture(_transform(fkey), p, inputs)
@@ -346,11 +350,48 @@ def concrete_compare(spec: Any, fkey: str) -> Tuple[bool, str]:
         return out, list(gs)
 
     def same(a: Optional[torch.Tensor], b: Optional[torch.Tensor]) -> bool:
+        """Against MY reference interpreter.  Bit-identical, or - the property fixes which values are quantised with which format, not the
+        order in which autograd adds the gradients that meet at a fan-out - identical non-finite pattern and finite parts within 64 eps of
+        the tensor's largest magnitude (accumulation order moves a float32 sum by ~1e-7; the coarsest effect of a wrong / missing / extra
+        quantisation with the formats used here is >= 2^-11).  The lossless-vs-ORIGINAL clause below stays bit for bit, as the property says."""
         if (a is None) != (b is None):
             return False
-        return a is None or (a.shape == b.shape and torch.equal(torch.nan_to_num(a, nan=7.25), torch.nan_to_num(b, nan=7.25)))
+        if a is None:
+            return True
+        if a.shape != b.shape:
+            return False
+        if torch.equal(torch.nan_to_num(a, nan=7.25), torch.nan_to_num(b, nan=7.25)):
+            return True
+        fa, fb = torch.isfinite(a), torch.isfinite(b)
+        if not torch.equal(fa, fb) or not torch.equal(torch.nan_to_num(a[~fa], nan=7.25), torch.nan_to_num(b[~fb], nan=7.25)):
+            return False
+        if not fa.any() or not a.is_floating_point():
+            return False
+        bound = 64 * torch.finfo(a.dtype).eps * max(float(b[fb].abs().max()), 1e-30)
+        return bool(((a[fa] - b[fb]).abs() <= bound).all())
 
     bad = []
+    if mode == "raises":
+        for w in (True, False):
+            wide[0] = w
+            try:
+                run(lambda lv: cap.rewritten(*[lv[str(n.target)] for n in phs]))
+            except Exception as e:
+                return True, f"simulate_format[{fkey}]({spec_name(spec)}) raises {type(e).__name__}: {str(e)[:200]}"
+        return False, f"simulate_format[{fkey}]({spec_name(spec)}): the real rewritten module runs forward and backward without error"
+    if mode == "lossless":
+        for w in (False, True):
+            wide[0] = w
+            o1, g1 = run(lambda lv: cap.rewritten(*[lv[str(n.target)] for n in phs]))
+            o3, g3 = run(lambda lv: cap.original(*[lv[str(n.target)] for n in phs]))
+            tagw = " (wide-range data)" if w else ""
+            if not (o1.shape == o3.shape and torch.equal(torch.nan_to_num(o1, nan=7.25), torch.nan_to_num(o3, nan=7.25))):
+                bad.append("outputs differ from the original module's" + tagw)
+            for i, (a, b) in enumerate(zip(g1, g3)):
+                if (a is None) != (b is None) or (a is not None and not torch.equal(torch.nan_to_num(a, nan=7.25), torch.nan_to_num(b, nan=7.25))):
+                    d = "" if a is None or b is None else f" (max abs difference {float((torch.nan_to_num(a) - torch.nan_to_num(b)).abs().max()):.3g})"
+                    bad.append(f"gradient #{i} differs from the original module's{d}" + tagw)
+        return bool(bad), f"simulate_format[lossless]({spec_name(spec)}) vs the original module, bit for bit: " + "; ".join(bad[:3] or ["identical outputs and gradients"])
     for w in (True, False):  # first with data that saturates / underflows the formats, then the ordinary example inputs (kept for the checks below)
         wide[0] = w
         o1, g1 = run(lambda lv: cap.rewritten(*[lv[str(n.target)] for n in phs]))
@@ -369,6 +410,10 @@ def concrete_compare(spec: Any, fkey: str) -> Tuple[bool, str]:
 
 
 def replay_graph(obname: str, model: Dict[str, Any], info: Any) -> Tuple[bool, str]:
+    if obname == "no-exception":  # the symbolic run raised: confirmed only if the real pipeline raises too
+        return concrete_compare(_unplain(info["spec"]), info["formats"], mode="raises")
+    if obname == "lossless-bit-exact":
+        return concrete_compare(_unplain(info["spec"]), "lossless", mode="lossless")
     return concrete_compare(_unplain(info["spec"]), info["formats"])
 
 
@@ -391,6 +436,19 @@ def task_program(spec: Any, fkey: str, timeout: float) -> List[Dict[str, Any]]:
         return recs
     recs.append({"type": "obligation", "name": f"{name}/runs on the real TorchDynamo path", "status": CONCRETE, "queries": 0, "kind": "concrete", "detail": "ok"})
     recs += discharge("C15", name, harness(spec, cap, fkey), replay_graph, timeout, base_info={"spec": _plain(spec), "formats": fkey}, skip_definedness=True)
+    if fkey == "lossless":
+        # floating-point clause of the property, decided on the real code (labelled concrete): bit for bit against the ORIGINAL module
+        try:
+            b, desc = concrete_compare(spec, "lossless", mode="lossless")
+        except Exception as e:
+            recs.append({"type": "obligation", "name": f"{name}/lossless reproduces the original bit for bit", "status": INCONCLUSIVE, "queries": 0,
+                         "detail": f"{type(e).__name__}: {str(e)[:300]}"})
+            return recs
+        if b:
+            recs.append({"type": "violation", "key": f"C15/{name}/lossless reproduces the original bit for bit", "what": desc,
+                         "replay": {"info": {"spec": _plain(spec), "formats": "lossless"}, "obligation": "lossless-bit-exact", "model": {}}})
+        else:
+            recs.append({"type": "obligation", "name": f"{name}/lossless reproduces the original bit for bit", "status": CONCRETE, "queries": 0, "kind": "concrete", "detail": desc})
     return recs
 
 
@@ -581,7 +639,7 @@ def replay(data: Dict[str, Any]) -> Tuple[bool, str]:
         v = [x for x in r if x.get("type") == "violation"]
         return bool(v), str([x["what"] for x in v] or "transform applied")
     if "spec" in info:
-        return concrete_compare(_unplain(info["spec"]), info["formats"])
+        return replay_graph(data.get("obligation", ""), data.get("model") or {}, info)
     from ..fpbits.claims import concrete_eval
     holds, desc = concrete_eval(data["E"], data["M"], data["rounding"], data["srbits"], data["claim"], {k: int(v) for k, v in data["witness"].items()},
                                 data.get("dtype", "float32"), tuple(data.get("shape", [3])))
